@@ -147,6 +147,10 @@ def _ctrl_thread_alive(st):
 def _deliver(st, k, ev, site):
     action = ev['action']
     rec = {'k': k, 'site': list(site), 'action': action}
+    try:
+        rec['user_state'] = json.loads(json.dumps(getattr(st.worker, '_user_state', None)))
+    except Exception:  # noqa
+        rec['user_state'] = 'unrepresentable'
     st.landed.append(rec)
     if action in ('sigkill', 'sigterm'):
         _write(st, 'reached.%d' % len(st.landed), rec)
